@@ -202,11 +202,11 @@ type jn struct {
 	vals  []*jn
 }
 
-func jNull() *jn           { return &jn{kind: 'n'} }
-func jNum(raw string) *jn  { return &jn{kind: '0', raw: raw} }
-func jStr(s string) *jn    { return &jn{kind: 's', raw: s} }
+func jNull() *jn            { return &jn{kind: 'n'} }
+func jNum(raw string) *jn   { return &jn{kind: '0', raw: raw} }
+func jStr(s string) *jn     { return &jn{kind: 's', raw: s} }
 func jArr(items ...*jn) *jn { return &jn{kind: 'a', items: items} }
-func jRaw(s string) *jn    { return &jn{kind: 'r', raw: s} }
+func jRaw(s string) *jn     { return &jn{kind: 'r', raw: s} }
 func jObj(kv ...any) *jn {
 	o := &jn{kind: 'o'}
 	for i := 0; i+1 < len(kv); i += 2 {
